@@ -26,6 +26,8 @@ def balanced_variant(draw, max_heavy=40):
     pool = gen.load_reactions_capped("balanced", max_heavy, 6)
     rxn = draw(gen.indexed(pool))
     tags = ["balanced"]
+    if draw(st.integers(0, 7)) == 0:
+        rxn, tags = draw(gen.shared_reagent_union())   # a reactant written twice, products all different
     a, b = oracle.split_reaction(rxn)
     ra, rb = a.split("."), b.split(".")
     if draw(st.integers(0, 3)) == 0:
